@@ -278,6 +278,22 @@ class Ctx:
             t.fail("C19", "C19.query_raises", ENGINE, rp(raised=repr(exc)), {"kind": kind})
             return
         t.check(self.observe(f) == before, "C19", "C19.expanding_queries_unchanged", ENGINE, rp, {"kind": kind})
+        if self.rot and self.qmax > 1 and len(before["subs"]) > 1:
+            # the same export loaded with a SMALLER max_queue_size: the loaded filter holds more filters than its limit until later additions
+            # rotate them out - a reachable state; queries and exports must leave it alone too
+            try:
+                g = self.R.frombytes(bytes(f), max_queue_size=len(before["subs"]) - 1, hash_function=f.hash_function)
+                b0 = self.observe(g)
+                for k in self.keys:
+                    g.check(self.rk(k))
+                data = bytes(g)
+                g.export(io.BytesIO())
+                g.expansions, g.elements_added, g.current_queue_size, g.max_queue_size  # noqa
+                same = self.observe(g) == b0 and bytes(g) == data == bytes(f)
+            except Exception as exc:  # noqa
+                t.fail("C19", "C19.query_raises", ENGINE, rp(raised=repr(exc), loaded_with_smaller_queue=True), {"kind": kind})
+                return
+            t.check(same, "C19", "C19.overlong_loaded_queue_queries_unchanged", ENGINE, lambda: rp(loaded_with_max_queue_size=len(before["subs"]) - 1), {"kind": kind})
         if before["total"] > 0:
             t.nontriv(hash(repr((kind, before["subs"], before["total"]))))
 
